@@ -93,6 +93,44 @@ def main():
     defs.append("/-- lint names (kebab-case of the `Lint` variants): `src/lint.rs` -/\ndef lintNames : List String := [" + ", ".join(json.dumps(k) for k in kebab) + "]")
     (status["extracted"] if m else status["fallback"]).append("lintNames")
 
+    # ---- C16 byte sizes
+    B = "src/bytes.rs"
+    src = read(repo, B)
+    consts = {}
+    for m in re.finditer(r"const\s+([A-Z]+)\s*:\s*u64\s*=\s*([^;]+);", src):
+        expr = m.group(2)
+        for k, v in consts.items():
+            expr = re.sub(r"\b" + k + r"\b", str(v), expr)
+        try:
+            consts[m.group(1)] = nat_expr(expr)
+        except Exception:
+            pass
+    table = []
+    mm = re.search(r"match\s+suffix\.to_lowercase\(\)\.as_str\(\)\s*\{(.*?)_\s*=>", src, flags=re.S)
+    if mm:
+        for arm in re.finditer(r'((?:"[^"]*"\s*\|?\s*)+)=>\s*([A-Za-z0-9_]+)\s*,', mm.group(1)):
+            names = re.findall(r'"([^"]*)"', arm.group(1))
+            rhs = arm.group(2)
+            val = consts.get(rhs)
+            if val is None:
+                try:
+                    val = nat_expr(rhs)
+                except Exception:
+                    val = None
+            if val is not None:
+                for n in names:
+                    table.append((n, val))
+    if table:
+        status["extracted"].append("suffixTable")
+    else:
+        status["fallback"].append("suffixTable")
+        table = [("", 1), ("b", 1), ("byte", 1), ("bytes", 1), ("kib", 1 << 10), ("mib", 1 << 20), ("gib", 1 << 30), ("tib", 1 << 40), ("pib", 1 << 50), ("eib", 1 << 60)]
+    def chars(n):
+        return "[" + ", ".join("'" + c + "'" for c in n) + "]"
+    defs.append("/-- parse suffix table (lower-case suffix as characters, multiplier): `src/bytes.rs` -/\ndef suffixTable : List (List Char × Nat) := [" + ", ".join(f"({chars(n)}, {v})" for n, v in table) + "]")
+    strlist("displaySuffixes", B, r"DISPLAY_SUFFIXES\s*:\s*&\[&str\]\s*=\s*&\[(.*?)\]", ["KiB", "MiB", "GiB", "TiB", "PiB", "EiB"], doc="display suffixes")
+    nat("displayStep", B, r"while\s+value\s*>=\s*(\d+)\.0", 1024, doc="display division step")
+
     body = "/-! GENERATED by tools/gen_consts.py from /repo sources on every check run. Do not edit. -/\nnamespace Imdlv.Consts\n\n" + "\n\n".join(defs) + "\n\nend Imdlv.Consts\n"
     old = None
     try:
